@@ -31,6 +31,7 @@ import (
 	"sort"
 	"strings"
 	"sync"
+	"sync/atomic"
 	"testing"
 	"testing/synctest"
 	"time"
@@ -146,6 +147,7 @@ type vfQrRun struct {
 	retry    bool           // an allowed but different non-deterministic choice was made: run the walk again
 	tie      bool           // the step just executed had several allowed outcomes (Go map iteration order decides)
 	tieSnap  map[int][3]int // candidate socket -> (pool class, count, unused age) before the call
+	tieHeld  bool           // the model's outcome keeps a reference (always visible in the count)
 	devs     []string
 }
 
@@ -725,9 +727,11 @@ func (r *vfQrRun) otherChoice(chosen int) bool {
 		return changed[0] != chosen
 	}
 	if len(changed) == 0 {
-		// a use that began and ended within the call is invisible on a transport that became unused at this very instant
-		invisible := func(c int) bool { b, ok := r.tieSnap[c]; return ok && b[1] == 0 && b[2] == 0 }
-		if !invisible(chosen) {
+		// A use that began and ended within the call (failed dial / failed listen) is invisible on a transport that became
+		// unused at this very instant or that has other users. If the model's outcome would be visible on its own choice
+		// and is not, while it would be invisible on another candidate, that other candidate was picked.
+		invisible := func(c int) bool { b, ok := r.tieSnap[c]; return ok && (b[1] >= 1 || (b[1] == 0 && b[2] == 0)) }
+		if r.tieHeld || !invisible(chosen) {
 			for c := range r.tieSnap {
 				if c != chosen && invisible(c) {
 					return true
@@ -770,6 +774,7 @@ func (r *vfQrRun) exec(op vfh.Op) {
 		ln, err := r.cm.ListenQUICAndAssociate(assoc, r.maddr(op.S("ip"), op.I("port")), conf, nil)
 		r.disarm()
 		synctest.Wait()
+		r.tieHeld = op.B("ok")
 		if r.tie && r.otherChoice(op.I("sock")) {
 			r.retry = true
 			return
@@ -890,6 +895,7 @@ func (r *vfQrRun) exec(op vfh.Op) {
 		r.n.drop.Store(false)
 		synctest.Wait()
 		d.tr, d.conn = res.tr, res.conn
+		r.tieHeld = op.B("ok")
 		if r.tie && r.otherChoice(op.I("sock")) {
 			r.retry = true
 			return
@@ -1143,8 +1149,11 @@ type vfQrOutcome struct {
 
 // runWalk executes steps[0:upto] of a walk in a fresh bubble. passiveFrom >= 0: from that step on nothing is repaired, and
 // after the last step virtual time passes for two GC rounds with the monitors on (confirmation of a deviation).
+var vfQrProgress atomic.Int64 // bubbles completed (watched from outside the bubbles: see the stall watchdog)
+
 func vfQrRunWalk(t *testing.T, conf vfQrConf, cert tls.Certificate, w vfh.Walk, upto int, passiveFrom int) vfQrOutcome {
 	out := vfQrOutcome{step: -1}
+	defer vfQrProgress.Add(1)
 	synctest.Test(t, func(t *testing.T) {
 		r := &vfQrRun{t: t, conf: conf, cert: cert}
 		if err := r.start(); err != nil {
